@@ -253,8 +253,7 @@ def is_example_user(f):
     return False
 
 
-def check_example(rep, db, f, inst):
-    rule = "R-C04-example"
+def check_example(rep, db, f, inst, rule="R-C04-example"):
     ps = Engine(db).run(f)
     seen = False
     pnames = [p_["n"] for p_ in f["params"]]
@@ -293,7 +292,7 @@ def check_example(rep, db, f, inst):
                     rep.violation(rule, site(f), "context translation on %s, which is not a sandbox derived from the caller's sandbox parameter" % fmt(e.c), e.loc, inst)
                     return True
     # R-C04-nullstore
-    if f["n"] == "rlbox::tainted_volatile::operator=" and "nullptr_t" in ((f["params"][0]["t"] or {}).get("c") or ""):
+    if rule == "R-C04-example" and f["n"] == "rlbox::tainted_volatile::operator=" and "nullptr_t" in ((f["params"][0]["t"] or {}).get("c") or ""):
         for p in ps:
             st = [e for e in p.events if e.kind == "STORE" and e.a == ("fld", THIS_OBJ, "data")]
             if len(st) == 1 and st[0].b == C(0):
